@@ -201,7 +201,12 @@ func (l *linkedBuffer) Reserve(size int) ([]byte, error) {
 	}
 
 	// 3. alloc a new slice
-	buf, err := l.bufferManager.allocShmBuffer(uint32(size))
+	var buf *bufferSlice
+	err = ErrNoMoreBuffer
+	// the share memory of a closed session is (about to be) unmapped, never allocate from it.
+	if l.stream == nil || !l.stream.session.IsClosed() {
+		buf, err = l.bufferManager.allocShmBuffer(uint32(size))
+	}
 	if err == nil {
 		//todo optimized only release the middle node
 		l.sliceList.pushBack(buf)
@@ -493,6 +498,15 @@ func (l *linkedBuffer) readNextSlice() {
 
 func (l *linkedBuffer) alloc(size uint32) {
 	remain := int64(size)
+	if l.stream != nil && l.stream.session.IsClosed() {
+		// the share memory of a closed session is (about to be) unmapped, never allocate from it.
+		if remain < defaultSingleBufferSize {
+			remain = defaultSingleBufferSize
+		}
+		l.sliceList.pushBack(newBufferSlice(nil, make([]byte, remain), 0, false))
+		l.isFromShm = false
+		return
+	}
 	buf, err := l.bufferManager.allocShmBuffer(size)
 	if err == nil {
 		l.sliceList.pushBack(buf)
